@@ -401,9 +401,66 @@ func run(c *runner.Ctx) {
 	}
 	if !persistent {
 		manyTagNames(c, d)
+		samePrintingTypes(c, d)
 		spuriousMisses(c, d, all, expect, 3)
 		lateRegistration(c, d)
 		sharedRuleMap(c, d)
+	}
+}
+
+// Two different types whose printed name is the same (types declared inside two functions): a cache entry belongs
+// to a type, not to what the type prints as.
+func localA() interface{} {
+	type Order struct {
+		Num  int    `a:"to=1~10|A-num" b:"required|A-b"`
+		Note string `a:"required|A-note"`
+	}
+	return &Order{Num: 100, Note: ""}
+}
+
+func localB() interface{} {
+	type Order struct {
+		Note string `a:"to=1~2|B-note" b:"required|B-b"`
+		Num  int    `a:"ge=500|B-num"`
+		Qty  int    `a:"required|B-qty"`
+	}
+	return &Order{Num: 100, Note: "toolong"}
+}
+
+func samePrintingTypes(c *runner.Ctx, d *deleg) {
+	c.Space(c.Mode + ":types-that-print-the-same")
+	mk := []func() interface{}{localA, localB}
+	for _, cf := range cfgs {
+		for order := 0; order < 2; order++ {
+			for _, tag := range []string{"a", "b"} {
+				if !c.Take() {
+					continue
+				}
+				d.inner = cf.mk()
+				for step := 0; step < 4; step++ {
+					v := mk[(order+step)%2]()
+					want := walk.Struct(v, walk.Opts{Tag: tag}).Error()
+					var err error
+					pan, msg, site := runner.Guard(func() { err = valid.ValidateStruct(v, tag) })
+					got := ""
+					if err != nil {
+						got = err.Error()
+					}
+					det := map[string]interface{}{"config": cf.name, "type": fmt.Sprintf("%T declared in function %d", v, (order+step)%2), "tag": tag, "step": step, "expected": want, "actual": got}
+					if pan {
+						det["panic"] = msg
+						c.Violation("panic@"+site, det)
+						break
+					}
+					if got != want {
+						c.Violation("same-printing-types/judged-as-the-other-type", det)
+						break
+					}
+				}
+				c.Done(true, 4)
+				c.Outcome("ok")
+			}
+		}
 	}
 }
 
